@@ -27,12 +27,19 @@ echo "--- existing tests WITH change"
 go test -vet=off -count=1 ./x/... ./app/... 2>&1 | grep -v "no test files" | grep -v "^ok" | tail -5
 go test -vet=off -count=1 ./tests/integration/... 2>&1 | tail -2
 git checkout -q -- . ; git clean -fdq
-echo "--- /verif checks against /repo WITH change"
-git -C /repo apply $out/patch.diff || { echo "PATCH DOES NOT APPLY TO /repo"; exit 2; }
+if [ "${USE_REPO:-0}" = "1" ]; then
+  echo "--- /verif checks against /repo WITH change"
+  git -C /repo apply $out/patch.diff || { echo "PATCH DOES NOT APPLY TO /repo"; exit 2; }
+  target=/repo
+else
+  echo "--- /verif checks against the scratch worktree (at /repo's HEAD) WITH change"
+  git checkout -q --detach $(git -C /repo rev-parse HEAD)
+  git apply $out/patch.diff || { echo "PATCH DOES NOT APPLY TO HEAD"; exit 2; }
+  target=$wt
+fi
 cd /verif
 for c in $checks; do
-  python3 vcheck.py $c --tier quick --no-evidence 2>&1 | grep -E "^(VIOLATION|KNOWN-FINDING|INCONCLUSIVE|ERROR|C[0-9]+ )" | cut -c1-400 | head -12
+  VERIF_REPO=$target python3 vcheck.py $c --tier quick --no-evidence 2>&1 | grep -E "^(VIOLATION|KNOWN-FINDING|INCONCLUSIVE|ERROR|C[0-9]+ |  harness)" | cut -c1-500 | head -12
 done
-git -C /repo checkout -- .
-git -C /repo status --short | grep -v testdata
+if [ "$target" = "/repo" ]; then git -C /repo checkout -- . ; git -C /repo status --short | grep -v testdata; else git -C $wt checkout -q -- . ; fi
 echo "--- done"
